@@ -335,7 +335,8 @@ def unroll_literal_loops(f, only_data_driven=False):
       if not only_data_driven:
         splat_stmt(st)
       lit = literal_of(st.iter) if isinstance(st, ast.For) and not st.orelse and (not only_data_driven or _data_driven(st)) else None
-      if lit is not None and len(lit.elts) <= 32 and not any(isinstance(x, (ast.Break, ast.Continue, ast.Return, ast.Yield)) for b_ in st.body for x in ast.walk(b_)):
+      # (a `return` or `yield` in the body is as good in the unrolled copies; only break/continue refer to the loop itself)
+      if lit is not None and len(lit.elts) <= 32 and not any(isinstance(x, (ast.Break, ast.Continue)) for b_ in st.body for x in ast.walk(b_)):
         binds = [bind(st.target, e) for e in lit.elts]
         names = set().union(*[set(b) for b in binds if b]) if binds else set()
         assigned_in_body = {x.id for b_ in st.body for x in ast.walk(b_) if isinstance(x, ast.Name) and isinstance(x.ctx, ast.Store)}
@@ -717,6 +718,7 @@ def lower_repo(repo):
     c4 = constant_setattr(f)
     c5 = thread_result_tests(f) if q in getattr(repo, 'flattened', {}) else False
     c6 = propagate_attribute_aliases(f)
+    c6 = (c6 or []) + (inline_local_lambdas(f) or [])
     if c6:
       c4 = constant_setattr(f) or c4        # aliases of bound methods / operator functions are visible only now
     c7 = split_parallel_assignments(f)
@@ -730,6 +732,21 @@ def lower_repo(repo):
         g_.outer = f
     else:
       f.node, f.nested, f._private_clone = saved
+  # tests made constant by the specialisation to defaults / by inlining (`if None is None:`) are folded
+  from mmsa import specialise
+  for q, f in list(repo.functions.items()):
+    if specialise.has_const_test(f.node):
+      _cloned(f)
+      f.node.body = specialise._fold_block(f.node.body)
+      ast.fix_missing_locations(f.node)
+      for n_ in ast.walk(f.node):
+        for ch_ in ast.iter_child_nodes(n_):
+          ch_._parent = n_
+      tmp = core.FuncInfo(f.module, f.node, f.cls, f.kind, f.outer)
+      f.nested = tmp.nested
+      for g_ in f.nested.values():
+        g_.outer = f
+      done.append('%s: constant tests folded' % q)
   for q in LOWERED_ANCHORS:
     parts = q.split('.<locals>.')
     f = repo.functions.get(parts[0])
@@ -799,6 +816,15 @@ def conditional_assignments(f):
         out.append(ast.If(test=st.value.test, body=block([a]), orelse=block([b]), lineno=st.lineno, col_offset=st.col_offset))
         changed[0] = True
         continue
+      if isinstance(st, ast.Expr) and isinstance(st.value, ast.Call) and isinstance(st.value.func, ast.IfExp):
+        # (A if c else B)(x)  as a statement is  A(x) if c else B(x): the choice is made before the arguments are evaluated
+        c_ = st.value
+        st = ast.copy_location(ast.Expr(value=ast.copy_location(ast.IfExp(
+            test=c_.func.test,
+            body=ast.Call(func=c_.func.body, args=[dataflow.clone(a_) for a_ in c_.args], keywords=[dataflow.clone(k_) for k_ in c_.keywords]),
+            orelse=ast.Call(func=c_.func.orelse, args=[dataflow.clone(a_) for a_ in c_.args], keywords=[dataflow.clone(k_) for k_ in c_.keywords])), c_)), st)
+        ast.fix_missing_locations(st)
+        changed[0] = True
       if isinstance(st, ast.Expr) and isinstance(st.value, ast.IfExp):
         # A() if c else B()  as a statement: only one of the two calls is executed
         a = ast.Expr(value=st.value.body, lineno=st.lineno, col_offset=st.col_offset)
@@ -962,8 +988,16 @@ def propagate_attribute_aliases(f):
     if isinstance(st, ast.Assign) and len(st.targets) == 1 and isinstance(st.targets[0], ast.Name) and isinstance(st.value, ast.Attribute):
       v = st.targets[0].id
       root = chain_root(st.value)
-      if v in params or stores.get(v, 0) != 1 or root is None or root not in params or stores.get(root, 0):
-        continue
+      if stores.get(v, 0) != 1 or root is None:
+        continue          # (a parameter re-bound once before its first use is as good as a local: p = self.helper)
+      if root in params:
+        if stores.get(root, 0):
+          continue
+      else:
+        # a local bound exactly once, at the top level of the body, before the alias (results = HeapDict(..); push = results.push)
+        rdefs = [s_ for s_ in node.body if isinstance(s_, ast.Assign) and len(s_.targets) == 1 and isinstance(s_.targets[0], ast.Name) and s_.targets[0].id == root]
+        if stores.get(root, 0) != 1 or len(rdefs) != 1 or rdefs[0].lineno >= st.lineno:
+          continue
       txt = norm(st.value)
       if any(txt == c or txt.startswith(c + '.') for c in stored_chains):
         continue
@@ -983,7 +1017,61 @@ def propagate_attribute_aliases(f):
       for a_ in ('lineno', 'col_offset', 'end_lineno', 'end_col_offset'):
         if hasattr(e, a_):
           setattr(new, a_, getattr(e, a_))
-      return new
+      return dataflow._map_children(new, sub)       # an alias of an alias: par = self.parameters; tol = par.tolerance
+    return dataflow._map_children(e, sub) if isinstance(e, ast.AST) else e
+  drop = {id(st) for st in cands.values()}
+  node.body = [sub(st) for st in node.body if id(st) not in drop]
+  ast.fix_missing_locations(node)
+  for n in ast.walk(node):
+    for ch in ast.iter_child_nodes(n):
+      ch._parent = n
+  return sorted(cands)
+
+
+def inline_local_lambdas(f):
+  """v = lambda a: BODY   (v bound exactly once, at the top level of the function body, before its first use, and used only
+  as the callee of calls)  ->  every call v(x) becomes BODY[a := x] and the definition is dropped.  Makes
+  `assignments = lambda: self.geo_assignments ... assignments().t` transparent."""
+  node = f.node
+  stores = {}
+  for x in ast.walk(node):
+    if isinstance(x, ast.Name) and isinstance(x.ctx, (ast.Store, ast.Del)):
+      stores[x.id] = stores.get(x.id, 0) + 1
+  cands = {}
+  for st in node.body:
+    if isinstance(st, ast.Assign) and len(st.targets) == 1 and isinstance(st.targets[0], ast.Name) and isinstance(st.value, ast.Lambda):
+      v, lam = st.targets[0].id, st.value
+      a = lam.args
+      if stores.get(v, 0) != 1 or a.vararg or a.kwarg or a.kwonlyargs or a.defaults or a.posonlyargs:
+        continue
+      loads = [x for x in ast.walk(node) if isinstance(x, ast.Name) and x.id == v and isinstance(x.ctx, ast.Load)]
+      calls = [c for c in ast.walk(node) if isinstance(c, ast.Call) and isinstance(c.func, ast.Name) and c.func.id == v]
+      if not loads or len(loads) != len(calls):
+        continue            # also passed around as a value: leave it
+      if any(getattr(x, 'lineno', 0) < st.lineno for x in loads):
+        continue
+      if any(c.keywords or len(c.args) != len(a.args) or any(isinstance(x, ast.Starred) for x in c.args) for c in calls):
+        continue
+      # the free names of the body must mean the same thing at the call sites: not re-bound anywhere in the function
+      free = {x.id for x in ast.walk(lam.body) if isinstance(x, ast.Name) and isinstance(x.ctx, ast.Load)} - {p.arg for p in a.args}
+      if any(stores.get(n_, 0) > 1 for n_ in free):
+        continue
+      cands[v] = st
+  if not cands:
+    return []
+
+  def sub(e):
+    if isinstance(e, ast.Call) and isinstance(e.func, ast.Name) and e.func.id in cands:
+      lam = cands[e.func.id].value
+      binds = {p.arg: sub(x) for p, x in zip(lam.args.args, e.args)}
+
+      def sb(y):
+        if isinstance(y, ast.Name) and isinstance(y.ctx, ast.Load) and y.id in binds:
+          return dataflow.clone(binds[y.id])
+        if isinstance(y, ast.Lambda):
+          return y
+        return dataflow._map_children(y, sb)
+      return ast.copy_location(sb(dataflow.clone(lam.body)), e)
     return dataflow._map_children(e, sub) if isinstance(e, ast.AST) else e
   drop = {id(st) for st in cands.values()}
   node.body = [sub(st) for st in node.body if id(st) not in drop]
